@@ -9,7 +9,9 @@ use crate::real::*;
 
 pub struct C09;
 
-pub const VOCAB: [&str; 101] = [
+pub const VOCAB: [&str; 107] = [
+    // (identifiers may hold any Unicode digit: long ones whose multi-byte digits straddle bytes 16, 24 and 32)
+    "abcdefghijklmnopqrstuvw\u{663}\u{664}\u{665}", "abcdefghijklmno\u{663}\u{0967}z", "i\u{0663}", "abcdefghijklmnopqrstuvwxyzabcde\u{ff11}\u{ff12}", "long_identifier_of_more_than_thirty_two_bytes_0123456789", "x\u{1d7d9}\u{1d7d9}\u{1d7d9}\u{1d7d9}\u{1d7d9}\u{1d7d9}\u{1d7d9}",
     "0x_", "0b__", "0x_1", "0b1_0", "1_000", "0_7",
     "0xFFFFFFFFFFFFFFFF", "0x8000000000000000", "0x10000000000000000", "01000000000000000000000",
     "0b1000000000000000000000000000000000000000000000000000000000000000", "0x7FFFFFFFFFFFFFFF", "\u{feff}",
